@@ -29,6 +29,26 @@ KF_ML = "KF-C08-multiline-anchors"
 KF_PRIORITY = [1, 2, 3, 4, 0]
 
 
+def open_ids():
+    return {f["id"] for f in core.load_known(PID) if f.get("status") == "open"}
+
+
+def attribute(flags, s=None, ml_applies=False, extra=()):
+    """A deviating case is attributed to an OPEN class whenever one applies (class flags computed by Glob/Known.v,
+    the multi-line prediction, driver-level classes in `extra`). A case that lies only in repaired (fixed) classes,
+    or in none, gets no id: it is a genuine violation (the defect returned, or a new one)."""
+    op = open_ids()
+    cands = []
+    if ml_applies:
+        cands.append(KF_ML)
+    cands += [KFS[k] for k in KF_PRIORITY if flags and len(flags) > k and flags[k] == "1"]
+    cands += list(extra)
+    for c in cands:
+        if c in op:
+            return c
+    return None
+
+
 def all_strings(al, n):
     out, prev = [""], [""]
     for _ in range(n):
@@ -249,14 +269,7 @@ class Verdict:
                     if len(self.bash_disagree) < 40:
                         self.bash_disagree.append(rec)
                     continue
-                kid = None
-                if "\n" in s and specml[i] == code[i]:
-                    kid = KF_ML
-                else:
-                    for k in KF_PRIORITY:
-                        if flags[k] == "1":
-                            kid = KFS[k]
-                            break
+                kid = attribute(flags, s, ml_applies=("\n" in s and specml[i] == code[i]))
                 if kid:
                     rec["known"] = kid
                     self.note_known(kid, rec)
@@ -449,6 +462,63 @@ def run(ctx):
                 V.evals += len(ss)
                 continue
         V.pattern("glob_sh/" + k, o, p, q, ss, code, mf[0], mf[1], mf[2], mf[3])
+    # (iv-b) the pattern operators of parameter expansion that remove the LONGEST match: ${s##p} and ${s%%p}.
+    #        expected: cut off the longest prefix (suffix) of s that the specification matches as a whole
+    #        (the shortest-match operators and their empty-match corner are C06's)
+    rm_cases = []
+    rm_pats = ["@(a|ab)", "@(a|ab|abc)", "+(a|ab)", "*(a|b)", "a*", "*a", "?", "??", "[ab]*", "a?(b)", "@(ab|a)b", "*b*",
+               "+(ab)", "a@(|b)", "[!a]*", "*", "é*", "@(é|éa)"]
+    for c in rcases[: (250 if ctx.quick else 2500)]:
+        if "e" in c[0] and "i" not in c[0]:
+            rm_pats.append(c[1])
+    rm_subjects = ["", "a", "ab", "abc", "aab", "abab", "ba", "bab", "éab", "aé", "a\nb", "abcabc", "b"]
+    for pth in rm_pats:
+        kind = rng.choice(["rpp", "rss"])
+        rm_cases.append((kind, "e", pth, rm_subjects))
+    rm_out = ctx.impl("glob_sh", [[k, "extglob", pth, ""] + ss for (k, o, pth, ss) in rm_cases])
+    # specification bits for every prefix / suffix of every subject
+    parts_of = {}
+    for s_ in rm_subjects:
+        parts_of[("rpp", s_)] = [s_[:j] for j in range(len(s_), -1, -1)]
+        parts_of[("rss", s_)] = [s_[j:] for j in range(0, len(s_) + 1)]
+    rm_model = ctx.model("glob_ms", [["e", pth, ""] + [x for s_ in ss for x in parts_of[(k, s_)]] for (k, o, pth, ss) in rm_cases])
+    rm_checked = 0
+    for (k, o, pth, ss), so, am in zip(rm_cases, rm_out, rm_model):
+        mf = dec1(am)
+        if so.startswith(("PANIC", "DIED", "TIMEOUT")) or len(mf) < 4:
+            continue
+        got = [core.unhx(f).decode("utf-8", "replace") for f in so.strip().split(" ")] if so.strip() else []
+        if len(got) != len(ss) or any(g.startswith("\x01E") for g in got):
+            continue          # the engine rejected the pattern (error classes are covered by the matching checks)
+        pos = 0
+        for s_, g in zip(ss, got):
+            parts = parts_of[(k, s_)]
+            spec = mf[1][pos:pos + len(parts)]
+            model = mf[0][pos:pos + len(parts)]
+            pos += len(parts)
+            def cut(bits):
+                for part, b in zip(parts, bits):       # longest first
+                    if b == "1":
+                        return s_[len(part):] if k == "rpp" else s_[:len(s_) - len(part)]
+                return s_
+            rm_checked += 1
+            V.evals += 1
+            if "U" in model or "E" in model:
+                continue
+            exp_spec, exp_model = cut(spec), cut(model)
+            if g != exp_model:
+                V.mism.append({"what": "glob_sh/" + k, "opts": o, "pattern": pth, "subject": s_, "code": g, "model": exp_model,
+                               "why": "longest-match removal differs from the model (every candidate tried against the anchored pattern)"})
+            if g != exp_spec:
+                rec = {"input": {"op": "${s##p}" if k == "rpp" else "${s%%p}", "opts": o, "pattern": pth, "subject": s_},
+                       "why": "code gives %r, specification %r" % (g, exp_spec), "code": g, "spec": exp_spec}
+                kid = attribute(mf[3], s_, ml_applies=False) if g == exp_model else None
+                if kid:
+                    rec["known"] = kid
+                    V.note_known(kid, rec)
+                else:
+                    V.unknown.append(rec)
+    notes["longest_match_removal_cases"] = rm_checked
     notes["e2e_cases"] = len(e2e)
     notes["e2e_cases_with_engine_errors"] = e2e_err
     T.mark("e2e")
@@ -592,7 +662,7 @@ def run_fs(ctx, V):
             if bw == code:
                 if len(V.bash_disagree) < 40:
                     V.bash_disagree.append(rec)
-            elif sorted(code) == sorted(sw) and "/" in c[1]:
+            elif sorted(code) == sorted(sw) and "/" in c[1] and KF_SORT in open_ids():
                 rec["known"] = KF_SORT
                 V.note_known(KF_SORT, rec)
             else:
@@ -610,9 +680,8 @@ def run_fs(ctx, V):
             for comp in r["input"]["pattern"].split("/"):
                 f = dec1(next(it))
                 flags = f[3] if len(f) > 3 else "00000"
-                for kk in KF_PRIORITY:
-                    if flags[kk] == "1" and kid is None:
-                        kid = KFS[kk]
+                if kid is None:
+                    kid = attribute(flags)
             if kid:
                 r["known"] = kid
                 V.note_known(kid, r)
@@ -660,13 +729,9 @@ def search(ctx, res):
             sp, sml, flags = mf[1], mf[2], mf[3]
             if sp[k] == cb:
                 continue      # code = spec: a bash quirk
-            if "\n" in s and sml[k] == cb:
-                rec["known"] = KF_ML
-            else:
-                for kk in KF_PRIORITY:
-                    if flags[kk] == "1":
-                        rec["known"] = KFS[kk]
-                        break
+            kid = attribute(flags, s, ml_applies=("\n" in s and sml[k] == cb))
+            if kid:
+                rec["known"] = kid
         specv.append(rec)
     unknown = [r for r in specv if "known" not in r]
     unknown.sort(key=lambda r: len(r["input"].get("pattern", "")) + len(r["input"].get("subject", "")))
